@@ -153,6 +153,43 @@ CLEAN_VARIANTS = {
 }
 
 
+# ---- persistence signals by grammar position: version x Connection header shape x framing (RFC 9112 §9.3)
+# variant -> (header lines, tokens carried by ALL Connection field lines together, lower-cased)
+CONN_VARIANTS = {
+    "absent": (b"", []),
+    "close": (b"Connection: close\r\n", ["close"]),
+    "keep-alive": (b"Connection: keep-alive\r\n", ["keep-alive"]),
+    "other-te": (b"Connection: TE\r\n", ["te"]),
+    "other-list": (b"Connection: Upgrade, X-Legacy-Option\r\n", ["upgrade", "x-legacy-option"]),
+    "other-mixed-case": (b"Connection: uPgRaDe\r\n", ["upgrade"]),
+    "keep-alive-plus-others": (b"Connection: Upgrade, keep-alive, X-Opt\r\n", ["upgrade", "keep-alive", "x-opt"]),
+    "close-plus-others": (b"Connection: X-Opt, close, TE\r\n", ["x-opt", "close", "te"]),
+    "keep-alive-and-close": (b"Connection: keep-alive, close\r\n", ["keep-alive", "close"]),
+    "close-mixed-case": (b"connection: cLoSe\r\n", ["close"]),
+    "keep-alive-mixed-case": (b"CONNECTION: Keep-Alive\r\n", ["keep-alive"]),
+    "close-hint-substring": (b"Connection: X-Close-Hint, keep-alive\r\n", ["x-close-hint", "keep-alive"]),
+    "lines-keep-alive-then-close": (b"Connection: keep-alive\r\nConnection: close\r\n", ["keep-alive", "close"]),
+    "lines-close-then-keep-alive": (b"Connection: close\r\nConnection: keep-alive\r\n", ["close", "keep-alive"]),
+    "lines-others-only": (b"Connection: TE\r\nConnection: Upgrade\r\n", ["te", "upgrade"]),
+    "lines-other-then-keep-alive": (b"Connection: TE\r\nConnection: keep-alive\r\n", ["te", "keep-alive"]),
+    "lines-keep-alive-then-other": (b"Connection: keep-alive\r\nConnection: TE\r\n", ["keep-alive", "te"]),
+    "empty-value": (b"Connection: \r\n", []),
+    "ows-padded-close": (b"Connection:   close  \r\n", ["close"]),
+}
+VERSIONS = ("1.0", "1.1")
+FRAMINGS = ("content-length", "chunked", "close-delimited")
+
+
+def reference_persistent(version, tokens, framing):
+    """RFC 9112 §9.3: 'close' present -> not persistent; HTTP/1.1 -> persistent; HTTP/1.0 -> persistent only with
+    'keep-alive'. A close-delimited body ends with the connection, whatever the headers say."""
+    if framing == "close-delimited" or "close" in tokens:
+        return False
+    if version == "1.1":
+        return True
+    return "keep-alive" in tokens
+
+
 def hx(b):
     return b.hex()
 
@@ -189,6 +226,20 @@ class Fault:
         ok = ok_response(tok, method)
         if k == "ok":
             return "readfull;send:%s;done" % hx(ok_response(tok, method, **CLEAN_VARIANTS[self.cls or "ok"]))
+        if k.startswith("persist"):                     # cls = "<version>|<conn variant>|<framing>"
+            ver, var, framing = self.cls.split("|")
+            lines, tokens = CONN_VARIANTS[var]
+            m2 = "GET" if (method == "HEAD" and framing != "content-length") else method
+            r = ok_response(tok, m2, conn=lines, version=ver.encode(), cl=(framing == "content-length"), chunked=(framing == "chunked"))
+            if reference_persistent(ver, tokens, framing):
+                return "readfull;send:%s;done" % hx(r)
+            name = "close-delimited" if framing == "close-delimited" and reference_persistent(ver, tokens, "content-length") \
+                else "resp-http%s-conn-%s" % (ver.replace(".", ""), var)
+            if k == "persist-open" and framing != "close-delimited":   # keeps serving: a reuse is answered, and flagged
+                return "readfull;send:%s;taint:%s;done" % (hx(r), name)
+            # the server closes as the reference demands; the half-close keeps the socket readable so that any byte the
+            # client still writes on it is recorded
+            return "readfull;send:%s;taint:%s;done;fin;observe" % (hx(r), name)
         if k == "ok-slow":                              # healthy but slow: answers after pos ms
             return "readfull;sleep:%d;send:%s;done" % (p, hx(ok))
         if k == "rst-before-read":
@@ -201,20 +252,32 @@ class Fault:
             return "readfull;rst"
         if k == "close-after-request-bytes":          # orderly close in the middle of the request
             return "readn:%d;close" % p
+        # a cut position at or beyond the end of THIS method's response (HEAD has no body) is not a truncation: the
+        # exchange completes and the close that follows is an event on an idle connection
         if k == "fin-after-response-bytes":           # half close, observer keeps watching the connection
+            if p >= len(ok):
+                return "readfull;send:%s;done;fin;taint:idle-fin;observe" % hx(ok)
             return "readfull;send:%s;fin;taint:truncated;observe" % hx(ok[:p])
         if k == "close-after-response-bytes":
+            if p >= len(ok):
+                return "readfull;send:%s;done;close" % hx(ok)
             return "readfull;send:%s;close" % hx(ok[:p])
         if k == "rst-after-response-bytes":
+            if p >= len(ok):
+                return "readfull;send:%s;done;rst" % hx(ok)
             return "readfull;send:%s;rst" % hx(ok[:p])
         if k == "fin-after-chunked-response-bytes":
             okc = ok_response(tok, method, chunked=True)
+            if p >= len(okc):
+                return "readfull;send:%s;done;fin;taint:idle-fin;observe" % hx(okc)
             return "readfull;send:%s;fin;taint:truncated;observe" % hx(okc[:p])
         if k == "silence-after-request":
             return "readfull;taint:silence;observe"
         if k == "silence-mid-request":
             return "readn:%d;taint:silence;observe" % p
         if k == "silence-after-response-bytes":
+            if p >= len(ok):
+                return "readfull;send:%s;done" % hx(ok)
             return "readfull;send:%s;taint:silence;observe" % hx(ok[:p])
         if k == "malformed":
             return "readfull;send:%s;taint:malformed:%s;observe" % (hx(malformed_responses(tok)[self.cls]), self.cls)
